@@ -5,6 +5,8 @@ package intermediate
 import (
 	"sort"
 	"time"
+
+	"github.com/vmware/go-ipfix/pkg/entities"
 )
 
 // Virtual clock: check.py maps every non-test file of this package to a copy in which the
@@ -76,3 +78,6 @@ func VerifKeyLess(a, b FlowKey) bool { return keyLess(a, b) }
 func (r *AggregationFlowRecord) VerifFlags() (ready bool, retries int, correlatedFilled bool, isIPv4 bool) {
 	return r.ReadyToSend, r.waitForReadyToSendRetries, r.areCorrelatedFieldsFilled, r.isIPv4
 }
+
+// VerifFlowKey exposes getFlowKeyFromRecord (the five-tuple of a record, and whether both addresses are IPv4 ones).
+func VerifFlowKey(r entities.Record) (*FlowKey, bool, error) { return getFlowKeyFromRecord(r) }
